@@ -717,6 +717,21 @@ def batch_for_schema(rng, schema, root=None, count=8, lookalikes=True, boundarie
             if isinstance(literal, (list, dict)) and literal:
                 out.append(deep_lookalike(copy.deepcopy(literal)))
                 out += permuted_objects(rng, literal)
+    if isinstance(schema, dict):
+        # a value that happens to EQUAL a declared default is a value like any other (passed explicitly, it
+        # is validated; only an omitted one is forgiven)
+        if "default" in schema:
+            out.append(copy.deepcopy(schema["default"]))
+        props = schema.get("properties") if isinstance(schema.get("properties"), dict) else {}
+        for name, sub in list(props.items())[:6]:
+            sub = _deref(sub, root)
+            if isinstance(sub, dict) and "default" in sub and isinstance(name, str):
+                base = next((copy.deepcopy(seed) for seed in seeds if isinstance(seed, dict)), {})
+                base[name] = copy.deepcopy(sub["default"])
+                out.append(base)
+        items = _deref(schema.get("items"), root) if isinstance(schema.get("items"), dict) else None
+        if isinstance(items, dict) and "default" in items:
+            out.append([copy.deepcopy(items["default"])])
     if isinstance(schema, dict) and isinstance(schema.get("dependencies"), dict):
         # dependency probes: an otherwise valid object plus the triggering member (decisive for a dependency
         # whose value is `false`, an empty list, or a schema)
